@@ -155,7 +155,8 @@ func (s c11Stmt) parts() []string {
 	case s.With == 1 && s.WithRev:
 		p = append(p, "WITH", "(TIMEUNIT='ms', TIMESTAMP='ts')")
 	case s.With == 2 && s.WithRev:
-		p = append(p, "WITH", "(IDLETIMEOUT='5s', ALLOWEDLATENESS='2s', MAXOUTOFORDERNESS='1s', TIMEUNIT='ms', TIMESTAMP='ts')")
+		// (the durations in other units than the default spelling: the same values)
+		p = append(p, "WITH", "(IDLETIMEOUT='5000ms', ALLOWEDLATENESS='2000ms', MAXOUTOFORDERNESS='1000ms', TIMEUNIT='ms', TIMESTAMP='ts')")
 	case s.With == 1:
 		p = append(p, "WITH", "(TIMESTAMP='ts', TIMEUNIT='ms')")
 	case s.With == 2:
